@@ -493,6 +493,19 @@ def fanOut {α} (f : α → α × Ret) : List α → List α × Ret
       let (es', r') := fanOut f es
       (e' :: es', r')
 
+/-- The fan-out of OPUS_SET_APPLICATION with roll-back (opus_multistream_encoder.c:1238-1258, fix
+    9ffbe457): when a stream refuses, the streams changed before it are set back to the
+    application they had (`prev_app`). -/
+def fanOutApp (v : Int) : List EncSt → List EncSt × Ret
+  | [] => ([], .ok)
+  | e :: es =>
+    let (e', r) := encCtl e (.set .application v)
+    if r.code ≠ 0 then (e' :: es, r)
+    else
+      let (es', r') := fanOutApp v es
+      if r'.code ≠ 0 then ((encCtl e' (.set .application e.application)).1 :: es', r')
+      else (e' :: es', r')
+
 def xorAll : List Nat → Nat
   | [] => 0
   | x :: xs => x ^^^ xorAll xs
@@ -556,7 +569,7 @@ def msEncCtl (s : MsEncSt) : MsEncReq → MsEncSt × Ret
       -- :1223-1227 (fix a0f32f9c): every mono stream refuses forced stereo; refuse before any
       -- coupled stream has been changed
       if k = .forceChannels ∧ v = 2 ∧ s.nbCoupled < s.nbStreams then (s, .err .badArg) else
-      let (ss, r) := fanOut (fun e => encCtl e (.set k v)) s.streams
+      let (ss, r) := if k = .application then fanOutApp v s.streams else fanOut (fun e => encCtl e (.set k v)) s.streams
       ({ s with streams := ss }, r)
     else (s, .err .unimplemented)
   | .get .bitrate nonNull =>        -- :1133-1155
@@ -636,9 +649,8 @@ def msEncode (s : MsEncSt) (frameSize maxDataBytes : Int) (o : MsOracle) : MsEnc
           | none => msPre2 s i e1 o.lastRate
         else e1) }
 
-/-- The monitored contract of a multistream encode call: each reached stream's encode call meets
-    the single-stream contract (from the state it had right before the call), and no stream has
-    coded a frame before the first stream has. -/
+/-- The monitored contract of a multistream encode call: each reached stream's encode call stays in
+    the `obsRange` ranges (from the state it had right before the call). -/
 def msEncodeContract (s : MsEncSt) (frameSize maxDataBytes : Int) (o : MsOracle) : Bool :=
   match msEncodeEarly s frameSize maxDataBytes with
   | some _ => true
@@ -649,10 +661,7 @@ def msEncodeContract (s : MsEncSt) (frameSize maxDataBytes : Int) (o : MsOracle)
       | some e, some ob =>
         !(decide (i < o.reached)) ||
           (obsRange (msPre2 s i (msPrep s i e (o.rates.getD i 0) o.bw) o.lastRate) ob).isNone
-      | _, _ => true) &&
-    (match (msEncode s frameSize maxDataBytes o).streams with
-     | e0 :: es => !e0.first || es.all (fun e => e.first)
-     | [] => true) && decide (0 < f)
+      | _, _ => true) && decide (0 < f)
 
 /-! ### Layout validation (src/opus_multistream.c:41-96, opus_multistream_encoder.c:127-144) -/
 
